@@ -24,6 +24,10 @@ package authorizers
 //@   ensures (exists k int :: old(hw.n) <= k && k < hw.n && hw.arg0[k] == shanew.ret0[old(shanew.n)] && hw.arg1[k] == bytesOf(old(a.id)))
 //@   ensures (exists k int :: old(hw.n) <= k && k < hw.n && hw.arg0[k] == shanew.ret0[old(shanew.n)] && hw.arg1[k] == bytesOf(payload))
 //@   ensures (exists k int :: old(hw.n) <= k && k < hw.n && hw.arg0[k] == shanew.ret0[old(shanew.n)] && hw.arg1[k] == shash.ret0[old(shash.n)])
+//@   callsites writeDelimited 5
+//@   assert at call writeDelimited#4@4305e1b5.1: callarg1 == bytesOf(k)
+//@   assert at call writeDelimited#5@1178506b.1: callarg1 == bytesOf(values[k])
+//@   loop 0 invariant wdel.n - atloop(wdel.n) == 2 * (idx + 1)
 
 // C11: "adversarially shifted across component boundaries": everything of variable length that goes
 // into a cache key digest is written through writeDelimited, i.e. preceded by its length (8 bytes,
